@@ -562,8 +562,6 @@ def _term_small(case, obs):
         a = leaf_array(sp, case["lead"], case["pat"])
         if case.get("obs_dtype", "float32") == "float32":
             a = a.astype(np.float32)
-        if sp["dtype"] in ("int8", "int16", "int32") and self_oracle_fails(case, obs):
-            return None      # integer wrap-around of the range (direct call only): reported by the oracle, not modelled
         lo, hi = box_bounds(sp)
         bounded = not (np.isinf(hi).any() or np.isinf(lo).any())
         los = "[" + "; ".join(coq_Q(x) for x in lo.reshape(-1)) + "]" if bounded else "[]"
